@@ -69,6 +69,7 @@ type Field struct {
 	Index string // textual message index, "" in structs
 	Type  *Ty
 	Name  string
+	Dep   bool // the field carries [deprecated("old")]
 }
 
 const (
@@ -172,7 +173,7 @@ type Schema struct {
 func (r *Record) clone() *Record {
 	c := &Record{Kind: r.Kind, Name: r.Name, Opcode: r.Opcode}
 	for _, f := range r.Fields {
-		c.Fields = append(c.Fields, &Field{Index: f.Index, Type: f.Type.clone(), Name: f.Name})
+		c.Fields = append(c.Fields, &Field{Index: f.Index, Type: f.Type.clone(), Name: f.Name, Dep: f.Dep})
 	}
 	return c
 }
@@ -215,6 +216,9 @@ func renderRecord(b *strings.Builder, r *Record, indent string) {
 	}
 	fmt.Fprintf(b, "%s %s {\n", kw, r.Name)
 	for _, f := range r.Fields {
+		if f.Dep {
+			fmt.Fprintf(b, "%s    [deprecated(\"old\")]\n", indent)
+		}
 		if r.Kind == kMessage {
 			fmt.Fprintf(b, "%s    %s -> %s %s;\n", indent, f.Index, f.Type, f.Name)
 		} else {
@@ -336,7 +340,7 @@ func (s *Schema) typeSites() []typeSite {
 		for _, f := range r.Rec.Fields {
 			r, f := r, f
 			walkLeaves(f.Type, nil, func(leaf *Ty, pos string) {
-				out = append(out, typeSite{Leaf: leaf, Container: r.Kind, Pos: pos, Where: r.Rec.Name + "." + f.Name + " : " + f.Type.String()})
+				out = append(out, typeSite{Leaf: leaf, Container: r.Kind, Pos: pos, Where: r.Rec.Name + "." + f.Name + " : " + f.Type.String() + map[bool]string{true: " [deprecated]", false: ""}[f.Dep]})
 			})
 		}
 	}
